@@ -3,6 +3,7 @@ package protein
 import (
 	"fmt"
 	"math"
+	"sort"
 
 	"github.com/evolbioinfo/goalign/align"
 	"github.com/evolbioinfo/goalign/io"
@@ -167,6 +168,30 @@ func (model *ProtDistModel) opt_Dist_F(dist float64, F *mat.Dense) float64 {
 	ax = BL_MIN
 	bx = dist
 	cx = BL_MAX
+
+	// The likelihood of a pair may have several local maxima, and Brent only
+	// refines the one next to its starting point: scan a coarse geometric grid
+	// (and the initial distance) and start from the best point, bracketed by
+	// its two neighbours.
+	pts := []float64{BL_MIN, dist, BL_MAX}
+	for g := 0.01; g < BL_MAX; g *= 1.5 {
+		pts = append(pts, g)
+	}
+	sort.Float64s(pts)
+	best, lkbest := 0, math.Inf(-1)
+	for i, g := range pts {
+		if lk := model.lk_Dist(F, g); lk > lkbest {
+			best, lkbest = i, lk
+		}
+	}
+	bx = pts[best]
+	if best > 0 {
+		ax = pts[best-1]
+	}
+	if best < len(pts)-1 {
+		cx = pts[best+1]
+	}
+	dist = bx
 
 	optdist = dist
 	model.dist_F_Brent(ax, bx, cx, 1.E-10, 1000, &optdist, F)
